@@ -531,9 +531,9 @@ def corpus_chunks():
         C("merge", [], {}, stdin="q: 1\n"),
         C("merge", ["-M", "merge_across"], {}, stdin="a: 1\n---\nb: 2\n"),
     ]
-    cases.append(C("set", ["--change=a", "--value=9", "-F", "float", "map.yaml"], F("map")))    # known: F-float
+    cases.append(C("set", ["--change=a", "--value=9", "-F", "float", "map.yaml"], F("map")))    # repaired in the library: `!!float '9'` did not load again
     cases.append(C("merge", ["-S", "anchors.yaml", "r_anchors.yaml"],
-                   {"anchors.yaml": text_of("anchors"), "r_anchors.yaml": text_of("anchors")}))   # known: F-matrix (hang)
+                   {"anchors.yaml": text_of("anchors"), "r_anchors.yaml": text_of("anchors")}))   # repaired in the library: merging a document into itself never returned
     cases.append(C("diff", ["nulls.yaml", "r_nulls.yaml"],
-                   {"nulls.yaml": text_of("nulls"), "r_nulls.yaml": text_of("nulls")}))           # known: F-diff
+                   {"nulls.yaml": text_of("nulls"), "r_nulls.yaml": text_of("nulls")}))           # repaired in the library: a list holding null differed from itself
     return [cases]
